@@ -73,6 +73,10 @@ pub fn brotli_bytes(data: &[u8]) -> Vec<u8> {
   out
 }
 
+fn huge(v: u64) -> u64 {
+  if v >= HUGE { u64::MAX } else { v }
+}
+
 pub fn control_block() -> Vec<u8> {
   let mut cb = vec![0xc0];
   cb.extend([0x02u8; 32]);
@@ -316,8 +320,8 @@ impl Node {
       terms: e.terms.as_ref().map(|t| Terms {
         amount: t.amount.map(u128::from),
         cap: t.cap.map(u128::from),
-        height: (t.hs, t.he),
-        offset: (t.os, t.oe),
+        height: (t.hs.map(huge), t.he.map(huge)),
+        offset: (t.os.map(huge), t.oe.map(huge)),
       }),
       turbo: false,
     });
